@@ -18,6 +18,7 @@ import (
 	"strconv"
 	"strings"
 	"sync"
+	"sync/atomic"
 	"time"
 )
 
@@ -148,6 +149,7 @@ func sweepMain(args []string) int {
 
 	start := time.Now()
 	outcomes := make([]caseOutcome, len(cases))
+	var done int64
 	var wg sync.WaitGroup
 	ch := make(chan int)
 	if *jobs < 1 {
@@ -159,6 +161,9 @@ func sweepMain(args []string) int {
 			defer wg.Done()
 			for i := range ch {
 				outcomes[i] = runCaseSafe(cfg, cases[i])
+				if n := atomic.AddInt64(&done, 1); n%5000 == 0 {
+					fmt.Fprintf(os.Stderr, "lrref sweep: %d/%d cases done after %.0fs\n", n, len(cases), time.Since(start).Seconds())
+				}
 			}
 		}()
 	}
@@ -167,6 +172,60 @@ func sweepMain(args []string) int {
 	}
 	close(ch)
 	wg.Wait()
+
+	// second phase: language check of the selected cases, in batches
+	var langIdx []int
+	for i, o := range outcomes {
+		if o.lang {
+			langIdx = append(langIdx, i)
+		}
+	}
+	if len(langIdx) > 0 {
+		fmt.Fprintf(os.Stderr, "lrref sweep: language check of %d cases in batches of %d (after %.0fs)\n", len(langIdx), langBatchSize, time.Since(start).Seconds())
+		var batches [][]int
+		for lo := 0; lo < len(langIdx); lo += langBatchSize {
+			hi := lo + langBatchSize
+			if hi > len(langIdx) {
+				hi = len(langIdx)
+			}
+			batches = append(batches, langIdx[lo:hi])
+		}
+		par := *jobs / 4 // go build is parallel in itself
+		if par < 1 {
+			par = 1
+		}
+		var mu sync.Mutex
+		var wg2 sync.WaitGroup
+		bch := make(chan []int)
+		for w := 0; w < par; w++ {
+			wg2.Add(1)
+			go func() {
+				defer wg2.Done()
+				for b := range bch {
+					cs := make([]*Case, len(b))
+					for k, i := range b {
+						cs[k] = cases[i]
+					}
+					fails := languageBatchSafe(cfg, cs)
+					mu.Lock()
+					for _, f := range fails {
+						for _, i := range b {
+							if cases[i].ID == f.ID {
+								outcomes[i].fails = append(outcomes[i].fails, f)
+								break
+							}
+						}
+					}
+					mu.Unlock()
+				}
+			}()
+		}
+		for _, b := range batches {
+			bch <- b
+		}
+		close(bch)
+		wg2.Wait()
+	}
 
 	res := SweepResult{Scope: *scope, Seed: *seed, Shard: *shard, Cases: len(cases),
 		ScopeGrammars: len(e.specs), Tiers: e.tiers, Fails: []Fail{}, Samples: []Sample{}}
@@ -223,6 +282,16 @@ func sweepMain(args []string) int {
 	return 0
 }
 
+func languageBatchSafe(cfg *sweepCfg, cs []*Case) (fails []Fail) {
+	defer func() {
+		if r := recover(); r != nil {
+			fails = append(fails, Fail{ID: cs[0].ID, Grammar: cs[0].Text, Flags: strings.Join(cs[0].Flags, " "),
+				Kind: "internal", Msg: fmt.Sprintf("lrref panic in language batch: %v", r)})
+		}
+	}()
+	return languageBatch(cfg, cs)
+}
+
 func runCaseSafe(cfg *sweepCfg, c *Case) (o caseOutcome) {
 	defer func() {
 		if r := recover(); r != nil {
@@ -271,31 +340,19 @@ func runCase(cfg *sweepCfg, c *Case) (o caseOutcome) {
 		fail("internal", "%v", err)
 		return
 	}
-	ctx, cancel := context.WithTimeout(context.Background(), 10*time.Second)
-	defer cancel()
-	cmd := exec.CommandContext(ctx, cfg.gocc, append(append([]string{}, c.Flags...), "g.bnf")...)
-	cmd.Dir = dir
-	var stdout, stderr bytes.Buffer
-	cmd.Stdout, cmd.Stderr = &stdout, &stderr
-	cmd.WaitDelay = 2 * time.Second
-	runErr := cmd.Run()
-	if ctx.Err() == context.DeadlineExceeded {
+	status, stdoutS, stderrS, timedOut, runErr := runGocc(cfg, dir, c.Flags)
+	if timedOut {
 		o.timeout = true
 		fail("timeout", "gocc did not finish within 10s")
 		return
 	}
-	status := 0
 	if runErr != nil {
-		if ee, ok := runErr.(*exec.ExitError); ok {
-			status = ee.ExitCode()
-		} else {
-			fail("internal", "cannot run gocc: %v", runErr)
-			return
-		}
+		fail("internal", "cannot run gocc: %v", runErr)
+		return
 	}
 	o.sample.Status = status
 	errTail := func() string {
-		s := strings.TrimSpace(stderr.String())
+		s := strings.TrimSpace(stderrS)
 		var keep []string
 		for _, l := range strings.Split(s, "\n") {
 			if strings.HasPrefix(l, "warning: symbol") {
@@ -311,7 +368,7 @@ func runCase(cfg *sweepCfg, c *Case) (o caseOutcome) {
 
 	// 4a. exit status and conflict line
 	var outLines []string
-	for _, l := range strings.Split(stdout.String(), "\n") {
+	for _, l := range strings.Split(stdoutS, "\n") {
 		if l = strings.TrimSpace(l); l != "" {
 			outLines = append(outLines, l)
 		}
@@ -377,14 +434,43 @@ func runCase(cfg *sweepCfg, c *Case) (o caseOutcome) {
 	}
 	tablesOK := len(o.fails) == before
 
-	// 5. language check (thorough, sampled)
+	// 5. language check (thorough, sampled): done in batches in a second phase
 	if ci.Cells == 0 && tablesOK && (cfg.forceLng || (cfg.thorough && langSampled(c.ID, cfg.seed))) {
 		o.lang = true
-		if kind, msg := languageCheck(cfg, dir, g, em); kind != "" {
-			fail(kind, "%s", msg)
-		}
 	}
 	return
+}
+
+// runGocc runs gocc on g.bnf in dir with a 10 s time limit.
+func runGocc(cfg *sweepCfg, dir string, flags []string) (status int, stdout, stderr string, timedOut bool, err error) {
+	ctx, cancel := context.WithTimeout(context.Background(), 10*time.Second)
+	defer cancel()
+	cmd := exec.CommandContext(ctx, cfg.gocc, append(append([]string{}, flags...), "g.bnf")...)
+	cmd.Dir = dir
+	// many generator processes run side by side: one scheduler thread each is
+	// fastest (LRREF_GOCC_GOMAXPROCS overrides, 0 = inherit)
+	switch v := os.Getenv("LRREF_GOCC_GOMAXPROCS"); v {
+	case "":
+		cmd.Env = append(os.Environ(), "GOMAXPROCS=1")
+	case "0":
+	default:
+		cmd.Env = append(os.Environ(), "GOMAXPROCS="+v)
+	}
+	var so, se bytes.Buffer
+	cmd.Stdout, cmd.Stderr = &so, &se
+	cmd.WaitDelay = 2 * time.Second
+	runErr := cmd.Run()
+	stdout, stderr = so.String(), se.String()
+	if ctx.Err() == context.DeadlineExceeded {
+		return -1, stdout, stderr, true, nil
+	}
+	if runErr != nil {
+		if ee, ok := runErr.(*exec.ExitError); ok {
+			return ee.ExitCode(), stdout, stderr, false, nil
+		}
+		return -1, stdout, stderr, false, runErr
+	}
+	return 0, stdout, stderr, false, nil
 }
 
 type mismatch struct{ kind, msg string }
